@@ -164,6 +164,9 @@ pub fn ledger_has_violation() -> bool {
 pub fn ledger_first_violation() -> Option<String> {
     LEDGER.with(|l| l.borrow().viol.first().cloned())
 }
+pub fn ledger_violation_count() -> usize {
+    LEDGER.with(|l| l.borrow().viol.len())
+}
 pub fn ledger_len() -> u32 {
     LEDGER.with(|l| l.borrow().objs.len() as u32)
 }
